@@ -109,7 +109,13 @@ func genCatItem(r *rand.Rand, enc *json.Encoder, cfg Cfg, id int, depth int) {
 	z := reflect.New(gt)
 	v := reflect.New(gt)
 	gen.Fill(r, t, v.Elem(), 4)
-	if err := enc.Encode(M{"T": t, "vals": []any{abs.Project(t, z.Elem()), abs.Project(t, v.Elem())}, "cfg": "default"}); err != nil {
+	name := "default"
+	for n, c := range cfgs {
+		if c == cfg && n != "bq" {
+			name = n
+		}
+	}
+	if err := enc.Encode(M{"T": t, "vals": []any{abs.Project(t, z.Elem()), abs.Project(t, v.Elem())}, "cfg": name}); err != nil {
 		panic(err)
 	}
 }
